@@ -10,6 +10,8 @@ import (
 	"path/filepath"
 	"strconv"
 	"strings"
+	"syscall"
+	"unsafe"
 
 	"github.com/thomasjungblut/go-sstables/recordio"
 )
@@ -38,10 +40,12 @@ type schedReader struct {
 	sched   []int
 	si      int
 	eofData bool
+	reqs    []int // len(p) of every Read call received (the model keeps the same log)
 }
 
 func (s *schedReader) Read(p []byte) (int, error) {
 	n := len(p)
+	s.reqs = append(s.reqs, n)
 	if s.si < len(s.sched) {
 		l := s.sched[s.si]
 		s.si++
@@ -165,7 +169,94 @@ func bufrMaxSeek(dir string) (uint64, error) {
 }
 
 var bufrMaxOff uint64
+var bufrDirectOK bool
+var bufrDirectAlignment int
 
+
+// the REAL direct-I/O factory; it only remembers the *os.File it opened, so that the harness can look at the file offset
+type bufrDirectFactory struct {
+	file *os.File
+}
+
+func (f *bufrDirectFactory) CreateNewReader(path string, bufSize int) (*os.File, recordio.ByteReaderResetCount, error) {
+	file, rd, err := recordio.DirectIOFactory{}.CreateNewReader(path, bufSize)
+	f.file = file
+	return file, rd, err
+}
+
+func (f *bufrDirectFactory) CreateNewWriter(path string, bufSize int) (*os.File, recordio.WriteSeekerCloserFlusher, error) {
+	return recordio.DirectIOFactory{}.CreateNewWriter(path, bufSize)
+}
+
+// the file offset alignment O_DIRECT reads need on the file system of dir (the logical block size), found by trying:
+// the smallest power of two >= 512 at which a read into an aligned block succeeds. 0 = could not be determined.
+func bufrDirectAlign(dir string) int {
+	path := filepath.Join(dir, "alignprobe")
+	if err := os.WriteFile(path, make([]byte, 1<<16), 0o644); err != nil {
+		return 0
+	}
+	defer os.Remove(path)
+	f, err := os.OpenFile(path, os.O_RDONLY|syscall.O_DIRECT, 0)
+	if err != nil {
+		return 0
+	}
+	defer f.Close()
+	raw := make([]byte, 3*4096)
+	shift := int((4096 - uintptr(unsafe.Pointer(&raw[0]))%4096) % 4096)
+	block := raw[shift : shift+4096]
+	for a := 512; a <= 4096; a *= 2 {
+		if _, err := f.Seek(int64(a), 0); err != nil {
+			return 0
+		}
+		if _, err := f.Read(block); err == nil {
+			return a
+		}
+	}
+	return 0
+}
+
+func bufrIsEINVAL(err error) bool {
+	return err != nil && (errors.Is(err, syscall.EINVAL) || strings.Contains(err.Error(), "invalid argument"))
+}
+
+// io.ReadAll, statement by statement (same buffer growth, hence the same sequence of Read calls), with a guard: a reader
+// that claims to have delivered far more than the underlying data holds (a defect, not a property of the unchanged code)
+// must not make the harness allocate without bound
+func bufrReadAll(r io.Reader, limit int) ([]byte, error) {
+	b := make([]byte, 0, 512)
+	for {
+		n, err := r.Read(b[len(b):cap(b)])
+		b = b[:len(b)+n]
+		if err != nil {
+			if err == io.EOF {
+				err = nil
+			}
+			return b, err
+		}
+		if len(b) > limit {
+			return b, errors.New("bufr: ReadAll overrun: the reader delivered more bytes than the underlying reader holds")
+		}
+		if len(b) == cap(b) {
+			b = append(b, 0)[:len(b)]
+		}
+	}
+}
+
+// at most maxZeros empty reads in the whole schedule (the rest is dropped)
+func bufrLimitZeros(sched []int, maxZeros int) []int {
+	out := make([]int, 0, len(sched))
+	z := 0
+	for _, l := range sched {
+		if l == 0 {
+			z++
+			if z > maxZeros {
+				continue
+			}
+		}
+		out = append(out, l)
+	}
+	return out
+}
 
 func bufrCapClass(c int) string {
 	switch {
@@ -261,7 +352,7 @@ func runBufr(res *Result, drv *Driver, seed uint64, n int, tier string, only int
 	defer os.RemoveAll(dir)
 	res.Rule = "part A: call sequences (ReadByte/ReadFull/Read/ReadAll) x buffer capacity x read schedule of the underlying reader " +
 		"(short reads, empty reads, stalls, EOF with data); part B: V4/V3/V2 files (intact, cut, zero/garbage tail, damaged headers) x " +
-		"reader (os file | scheduled reader through ReaderIoFactory) x capacity x ReadNext/SkipNext programs that go on after errors; " +
+		"reader (os file | scheduled reader through ReaderIoFactory, NewReaderBuf or NewAlignedReaderBuf | additionally always the real DirectIOFactory reader with 4096/8192/65536 byte buffers, records larger than the buffer included) x capacity x ReadNext/SkipNext programs that go on after errors; " +
 		"non-trivial = at least one call returned data (A) / at least one record was returned (B); distinct = distinct driver lines. " +
 		"Every fourth index also reads a hand-made V1 file (intact, cut, zero/garbage tail; oracles only, the model has no V1 reader). " +
 		"C12 oracle on every cut / tail-damaged file of every version: the records returned before the first error are the genuine records wholly inside the remaining bytes, in order, byte for byte"
@@ -271,6 +362,16 @@ func runBufr(res *Result, drv *Driver, seed uint64, n int, tier string, only int
 		return err
 	}
 	bufrMaxOff = maxSeek
+	bufrDirectOK, err = recordio.IsDirectIOAvailable()
+	if err != nil {
+		bufrDirectOK = false
+	}
+	if bufrDirectOK {
+		bufrDirectAlignment = bufrDirectAlign(dir)
+		if bufrDirectAlignment == 0 {
+			bufrDirectOK = false
+		}
+	}
 	grow = fmt.Sprintf("%s maxoff=%d", grow, maxSeek) // both are environment facts passed on every line
 	for i := 0; i < n; i++ {
 		if only >= 0 && i != only {
@@ -396,8 +497,14 @@ func bufrCallsOne(res *Result, drv *Driver, r *Rng, idx int, tier string, grow s
 	if eofData {
 		ed = 1
 	}
-	line := fmt.Sprintf("bufr.calls cap=%d data=%s sched=%s eofdata=%d grow=%s calls=%s",
-		capv, gb(nonNil(data)), schedWire(sched), ed, grow, strings.Join(calls, ","))
+	aligned := r.Chance(35) // NewAlignedReaderBuf: never reads into the caller's slice
+	al := 0
+	if aligned {
+		al = 1
+		res.Stat("A:aligned")
+	}
+	line := fmt.Sprintf("bufr.calls cap=%d aligned=%d data=%s sched=%s eofdata=%d grow=%s calls=%s",
+		capv, al, gb(nonNil(data)), schedWire(sched), ed, grow, strings.Join(calls, ","))
 
 	capClass := bufrCapClass(capv)
 	res.Stat("A:cap:" + capClass)
@@ -408,7 +515,12 @@ func bufrCallsOne(res *Result, drv *Driver, r *Rng, idx int, tier string, grow s
 
 	// real code
 	sr := &schedReader{data: data, sched: sched, eofData: eofData}
-	rd := recordio.NewReaderBuf(sr, make([]byte, capv))
+	var rd *recordio.Reader
+	if aligned {
+		rd = recordio.NewAlignedReaderBuf(sr, make([]byte, capv))
+	} else {
+		rd = recordio.NewReaderBuf(sr, make([]byte, capv))
+	}
 	cr := recordio.NewCountingByteReader(rd)
 	check := true // capacity 0 is an ordinary case: NewReaderBuf substitutes a 16-byte buffer
 	pos := 0
@@ -527,7 +639,7 @@ func bufrCallsOne(res *Result, drv *Driver, r *Rng, idx int, tier string, grow s
 			}
 		case "a":
 			var all []byte
-			err := safely(func() error { var e error; all, e = io.ReadAll(cr); return e })
+			err := safely(func() error { var e error; all, e = bufrReadAll(cr, len(data)+1<<16); return e })
 			k := bufrErrKind(err)
 			toks = append(toks, "a:"+gb(nonNil(all))+":"+k+tail())
 			if len(all) > 0 {
@@ -568,6 +680,19 @@ func bufrCallsOne(res *Result, drv *Driver, r *Rng, idx int, tier string, grow s
 	if err != nil {
 		return err
 	}
+	// the request lengths the underlying reader received, in call order (the model logs them too)
+	toks = append(toks, "q:"+schedWire(sr.reqs))
+	if aligned {
+		// the point of the aligned reader: it only ever hands (a suffix of) its own buffer to the underlying reader
+		res.Evaluations++
+		for _, q := range sr.reqs {
+			if q > ecap {
+				res.Violate(idx, "C04", "bufr-aligned-reader-passes-callers-slice-cap"+capClass,
+					fmt.Sprintf("an aligned reader with a %d byte buffer asked the underlying reader for %d bytes", ecap, q), line)
+				break
+			}
+		}
+	}
 	res.Cmp(idx, "bufr.calls", m, strings.Join(toks, " "), line)
 	return nil
 }
@@ -593,6 +718,7 @@ type bufrFactory struct {
 	data    []byte
 	sched   []int
 	eofData bool
+	aligned bool
 	cr      recordio.ByteReaderResetCount
 }
 
@@ -602,7 +728,12 @@ func (f *bufrFactory) CreateNewReader(path string, bufSize int) (*os.File, recor
 		return nil, nil, err
 	}
 	sr := &schedReader{data: f.data, sched: f.sched, eofData: f.eofData}
-	rd := recordio.NewReaderBuf(sr, make([]byte, bufSize))
+	var rd *recordio.Reader
+	if f.aligned {
+		rd = recordio.NewAlignedReaderBuf(sr, make([]byte, bufSize))
+	} else {
+		rd = recordio.NewReaderBuf(sr, make([]byte, bufSize))
+	}
 	f.cr = recordio.NewCountingByteReader(rd)
 	return file, f.cr, nil
 }
@@ -644,6 +775,7 @@ func bufrFileOne(res *Result, drv *Driver, r *Rng, idx int, tier string, grow st
 	var recs []bufrRec
 	var payloads [][]byte
 	var file []byte
+	bigRecs := false
 
 	if r.Chance(60) && !v1 {
 		// (a) a real V4 file
@@ -656,9 +788,18 @@ func bufrFileOne(res *Result, drv *Driver, r *Rng, idx int, tier string, grow st
 			around = []int{65536, 65536, 36}
 			nrec = r.Intn(3)
 		}
+		bigRecs = r.Chance(15) // records larger than the direct-I/O reader's buffers (4096 / 8192)
+		if bigRecs {
+			nrec = 1 + r.Intn(4)
+			res.Stat("B:gen:records-larger-than-4096")
+		}
 		total := 0
 		for i := 0; i < nrec; i++ {
 			p := genPayload(r, around)
+			if bigRecs && r.Chance(65) {
+				base := r.Pick([]int{4096, 8192, 4097, 5000, 9000, 12288, 20000})
+				p = r.Bytes(base + r.Intn(7) - 3)
+			}
 			if total+len(p) > 90000 {
 				break
 			}
@@ -790,6 +931,9 @@ func bufrFileOne(res *Result, drv *Driver, r *Rng, idx int, tier string, grow st
 		if damage == "hdrbyte" && (version != 4 || len(recs) == 0) {
 			damage = "cut"
 		}
+		if bigRecs && r.Chance(60) {
+			damage = "cut" // cut files with records larger than the direct-I/O buffer
+		}
 		if v1 && damage == "filehdr" {
 			damage = "cut"
 		}
@@ -804,6 +948,15 @@ func bufrFileOne(res *Result, drv *Driver, r *Rng, idx int, tier string, grow st
 				ri = r.Intn(len(recs))
 			}
 			c := r.Intn(100)
+			if bigRecs && ri >= 0 && r.Chance(70) {
+				// inside the payload of a record that is larger than the reader's buffer, if there is one
+				for k := range recs {
+					if recs[k].storedLen >= 4096 && (r.Chance(50) || recs[ri].storedLen < 4096) {
+						ri = k
+					}
+				}
+				c = 99
+			}
 			switch {
 			case c < 15 || ri < 0:
 				at = r.Intn(8)
@@ -967,28 +1120,71 @@ func bufrFileOne(res *Result, drv *Driver, r *Rng, idx int, tier string, grow st
 	}
 	var sched []int
 	eofData := false
+	aligned := false
 	if mode == "sched" {
 		sched, _ = bufrGenSched(r, capv)
 		eofData = r.Chance(15)
+		aligned = r.Chance(30)
+		if aligned {
+			// the library's own io.ReadAll (zero-tail rule) runs over this reader: keep the number of empty reads small, so
+			// that a reader which miscounts them cannot make ReadAll grow its buffer without bound
+			sched = bufrLimitZeros(sched, 30)
+		}
 	}
-	ns := noStall(sched)
 	nprog := len(recs) + 1 + r.Intn(3)
 	prog := make([]string, nprog)
+	readPct := 65
+	if bigRecs && damage == "cut" {
+		readPct = 92 // mostly sequential programs: the direct-I/O reader has to get to the cut record
+	}
 	for i := range prog {
-		if r.Chance(65) && damage != "hugeskip" {
+		if r.Chance(readPct) && damage != "hugeskip" {
 			prog[i] = "r"
 		} else {
 			prog[i] = "k"
 		}
 	}
+	fileArg := gb(nonNil(file))
+	progArg := strings.Join(prog, ",")
+	path := filepath.Join(dir, fmt.Sprintf("f%d.rio", idx))
+	if err := os.WriteFile(path, file, 0o644); err != nil {
+		return err
+	}
+	defer os.Remove(path)
+	if err := bufrFilePass(res, drv, r, idx, v1, version, ct, damage, recs, file, intactLen, oracle, grow, fileArg, progArg, prog, path,
+		mode, capv, sched, eofData, aligned); err != nil {
+		return err
+	}
+	// every whole-file case is also read through the REAL direct-I/O reader (DirectIOFactory: O_DIRECT file, block aligned
+	// buffer, NewAlignedReaderBuf); records may be larger than the buffer, the file may be cut anywhere
+	if !bufrDirectOK {
+		res.Stat("B:directio:not-available-on-this-file-system:skipped")
+		return nil
+	}
+	bs := r.Pick([]int{4096, 4096, 8192, 65536})
+	if bigRecs {
+		bs = r.Pick([]int{4096, 4096, 8192})
+	}
+	return bufrFilePass(res, drv, r, idx, v1, version, ct, damage, recs, file, intactLen, oracle, grow, fileArg, progArg, prog, path,
+		"directio", bs, nil, false, true)
+}
+
+// one reader configuration over the file of a part B case
+func bufrFilePass(res *Result, drv *Driver, r *Rng, idx int, v1 bool, version int, ct int, damage string, recs []bufrRec, file []byte,
+	intactLen int, oracle string, grow string, fileArg string, progArg string, prog []string, path string,
+	mode string, capv int, sched []int, eofData bool, aligned bool) error {
+	ns := noStall(sched)
 	ed := 0
 	if eofData {
 		ed = 1
 	}
-	fileArg := gb(nonNil(file))
-	progArg := strings.Join(prog, ",")
-	line := fmt.Sprintf("bufr.file cap=%d file=%s sched=%s eofdata=%d oracle=%s grow=%s prog=%s",
-		capv, fileArg, schedWire(sched), ed, oracle, grow, progArg)
+	al := 0
+	if aligned {
+		al = 1
+		res.Stat("B:aligned")
+	}
+	line := fmt.Sprintf("bufr.file cap=%d aligned=%d file=%s sched=%s eofdata=%d oracle=%s grow=%s prog=%s",
+		capv, al, fileArg, schedWire(sched), ed, oracle, grow, progArg)
 	res.Stat("B:mode:" + mode)
 	res.Stat("B:cap:" + bufrCapClass(capv))
 	bufrSchedStats(res, "B", sched, eofData)
@@ -997,15 +1193,14 @@ func bufrFileOne(res *Result, drv *Driver, r *Rng, idx int, tier string, grow st
 	}
 
 	// ---- real code
-	path := filepath.Join(dir, fmt.Sprintf("f%d.rio", idx))
-	if err := os.WriteFile(path, file, 0o644); err != nil {
-		return err
-	}
-	defer os.Remove(path)
 	var rd recordio.ReaderI
 	var fac *bufrFactory
 	var err error
-	if mode == "osfile" {
+	var dfac *bufrDirectFactory
+	if mode == "directio" {
+		dfac = &bufrDirectFactory{} // delegates to recordio.DirectIOFactory{}
+		rd, err = recordio.NewFileReader(recordio.ReaderPath(path), recordio.ReaderIoFactory(dfac), recordio.ReaderBufferSizeBytes(capv))
+	} else if mode == "osfile" {
 		if r.Chance(30) {
 			res.Stat("B:mode:osfile:explicit-BufferedIOFactory")
 			rd, err = recordio.NewFileReader(recordio.ReaderPath(path), recordio.ReaderBufferSizeBytes(capv), recordio.ReaderIoFactory(recordio.BufferedIOFactory{}))
@@ -1013,7 +1208,7 @@ func bufrFileOne(res *Result, drv *Driver, r *Rng, idx int, tier string, grow st
 			rd, err = recordio.NewFileReader(recordio.ReaderPath(path), recordio.ReaderBufferSizeBytes(capv))
 		}
 	} else {
-		fac = &bufrFactory{data: file, sched: sched, eofData: eofData}
+		fac = &bufrFactory{data: file, sched: sched, eofData: eofData, aligned: aligned}
 		rd, err = recordio.NewFileReader(recordio.ReaderPath(path), recordio.ReaderBufferSizeBytes(capv), recordio.ReaderIoFactory(fac))
 	}
 	if err != nil {
@@ -1026,6 +1221,8 @@ func bufrFileOne(res *Result, drv *Driver, r *Rng, idx int, tier string, grow st
 		return fmt.Sprintf(":%d", fac.cr.Count())
 	}
 	var toks []string
+	var opErrs []error  // per op: the error as returned
+	var opOffs []int64  // per op (direct I/O only): offset of the O_DIRECT file after the call
 	var opRes []string  // per op, without counts
 	var opRecs [][]byte // per op: the record a successful ReadNext returned
 	gotRecord := false
@@ -1047,9 +1244,11 @@ func bufrFileOne(res *Result, drv *Driver, r *Rng, idx int, tier string, grow st
 		var lastRec []byte
 		for _, op := range prog {
 			var t string
+			var opErr error
 			if op == "r" {
 				var rec []byte
 				err := safely(func() error { var e error; rec, e = rd.ReadNext(); return e })
+				opErr = err
 				lastRec = append([]byte{}, rec...)
 				if err != nil {
 					t = "err:" + bufrErrKind(err)
@@ -1063,6 +1262,7 @@ func bufrFileOne(res *Result, drv *Driver, r *Rng, idx int, tier string, grow st
 				res.Stat("B:r:" + strings.SplitN(t, ":", 3)[0] + bufrKindSuffix(t))
 			} else {
 				err := safely(func() error { return rd.SkipNext() })
+				opErr = err
 				if err != nil {
 					t = "err:" + bufrErrKind(err)
 					if bufrErrKind(err) == "panic" {
@@ -1074,6 +1274,14 @@ func bufrFileOne(res *Result, drv *Driver, r *Rng, idx int, tier string, grow st
 				res.Stat("B:k:" + strings.SplitN(t, ":", 3)[0] + bufrKindSuffix(t))
 			}
 			opRes = append(opRes, t)
+			opErrs = append(opErrs, opErr)
+			off := int64(-1)
+			if dfac != nil && dfac.file != nil {
+				if o, e := dfac.file.Seek(0, io.SeekCurrent); e == nil {
+					off = o
+				}
+			}
+			opOffs = append(opOffs, off)
 			toks = append(toks, t+count())
 			opRecs = append(opRecs, nil)
 			if op == "r" && strings.HasPrefix(t, "ok:") {
@@ -1088,6 +1296,33 @@ func bufrFileOne(res *Result, drv *Driver, r *Rng, idx int, tier string, grow st
 	}
 	res.Sample(line)
 
+	// direct I/O, known finding directio-read-after-skipnext-einval: SkipNext seeks the O_DIRECT file to the end of the
+	// record and re-attaches the reader to it; when that offset is not a multiple of the block size the next read of the
+	// file fails with EINVAL. Exactly that — and nothing else — is reported under the signature: the call right after a
+	// SUCCESSFUL SkipNext that left the O_DIRECT file at an offset which is not block aligned, failing with EINVAL.
+	// The model (which has no O_DIRECT alignment rule: OS behaviour) is compared up to that call; everything before it,
+	// and every case without such a call, is compared in full.
+	einvalAt := -1
+	if mode == "directio" {
+		for oi := 1; oi < len(opRes); oi++ {
+			if prog[oi-1] == "k" && opRes[oi-1] == "ok" && opOffs[oi-1] >= 0 && opOffs[oi-1]%int64(bufrDirectAlignment) != 0 &&
+				opRes[oi] == "err:other" && bufrIsEINVAL(opErrs[oi]) {
+				einvalAt = oi
+				break
+			}
+		}
+	}
+	directSkipEinval := func(prop string, oi int) bool {
+		if einvalAt >= 0 && oi == einvalAt {
+			res.Violate(idx, prop, "directio-read-after-skipnext-einval",
+				fmt.Sprintf("direct-I/O reader (buffer %d, block size %d): op %d (%s) follows the successful SkipNext of op %d, which left the O_DIRECT file at offset %d; it failed with: %v; program %s",
+					capv, bufrDirectAlignment, oi, prog[oi], oi-1, opOffs[oi-1], opErrs[oi], progArg), line)
+			return true
+		}
+		return false
+	}
+	afterSkip := einvalAt - 1 // tokens compared with the model: open + ops 0..afterSkip
+
 	// ---- model (it has no reader for version 1)
 	m := ""
 	if !v1 {
@@ -1096,10 +1331,22 @@ func bufrFileOne(res *Result, drv *Driver, r *Rng, idx int, tier string, grow st
 			return err
 		}
 		mCmp := m
-		if mode == "osfile" {
+		if mode != "sched" {
 			mCmp = bufrStripCounts(m, false)
 		}
-		res.Cmp(idx, "bufr.file", mCmp, impl, line)
+		implCmp := impl
+		if afterSkip >= 0 {
+			res.Stat("B:directio:not-compared-after-first-skip")
+			cut := func(a string) string {
+				t := strings.Split(a, " ")
+				if len(t) > afterSkip+2 {
+					t = t[:afterSkip+2]
+				}
+				return strings.Join(t, " ")
+			}
+			mCmp, implCmp = cut(mCmp), cut(implCmp)
+		}
+		res.Cmp(idx, "bufr.file", mCmp, implCmp, line)
 	} else {
 		res.Stat("B:v1:oracles-only")
 	}
@@ -1130,6 +1377,9 @@ func bufrFileOne(res *Result, drv *Driver, r *Rng, idx int, tier string, grow st
 		for oi, op := range prog {
 			res.Evaluations++
 			got := opRes[oi]
+			if directSkipEinval("C04", oi) {
+				break
+			}
 			if ri < len(recs) {
 				if op == "r" {
 					want := "ok:" + gb(recs[ri].payload)
@@ -1189,6 +1439,9 @@ func bufrFileOne(res *Result, drv *Driver, r *Rng, idx int, tier string, grow st
 		for oi, op := range prog {
 			got := opRes[oi]
 			res.Evaluations++
+			if directSkipEinval("C12", oi) {
+				break
+			}
 			if strings.HasPrefix(got, "err:") {
 				if ri < complete {
 					res.Violate(idx, "C12", sig+":genuine-record-not-returned"+bufrNilSig(ct, recs[ri].payload),
